@@ -69,6 +69,13 @@ CLAIMS.update({
             "guard), N1 (sentinel overrides: tested variable = replaced variable, world's constant / adiabat, no dead override), closed "
             "forms of uniform/adiabatic/linear. Chapman, mass-conserving, tian2019 recipes are not decided",
             "§3.5, §3.6, §4 C05"),
+    "C07": ("dependence-set analysis of culling bounds + structural coverage rules",
+            "DEP: every depth cut-off / bounding box depends on all parameters the exact extent depends on (min depth, segment lengths "
+            "and thicknesses, coordinates, radius), spherical buffer factor > 1, max-accumulators cover all sections x segments x both "
+            "components, depth-surface pairing (min<-minimum, max<-maximum, same side everywhere), full-scan fallback before "
+            "Surface::local_value throws, who-may-call of alias-unaware implementations. Numeric sufficiency of the buffer near the poles "
+            "and kd-tree pruning arithmetic are not decided",
+            "§3.10, §3.4, §4 C07"),
     "C09": ("algebraic normal form of the cross-section map + layout agreement + dominance of the refusal",
             "direction vector, Cartesian and spherical 2D->3D point map, degree conversion, release-active refusal as first statement, "
             "2D slot walker vs library width table, velocity projection evaluated in statement order, 2D single-property forwarding",
